@@ -195,6 +195,22 @@ var verifC15Logger = func() logrus.FieldLogger {
 	return l
 }()
 
+// number of goroutines once it has stopped changing (a goroutine of the previous case may still
+// be on its way out; counting it into the base would end the wait of this case too early)
+func verifC15Quiesce() int {
+	deadline := time.Now().Add(200 * time.Millisecond)
+	n, same := runtime.NumGoroutine(), 0
+	for same < 8 && time.Now().Before(deadline) {
+		time.Sleep(50 * time.Microsecond)
+		if m := runtime.NumGoroutine(); m == n {
+			same++
+		} else {
+			n, same = m, 0
+		}
+	}
+	return n
+}
+
 func verifC15Wait(base int) bool {
 	deadline := time.Now().Add(10 * time.Second)
 	for runtime.NumGoroutine() > base {
@@ -273,7 +289,7 @@ func verifC15Sw(f []string) string {
 		}
 		sch.uuidOp[verifC15UUID(n)] = "held-by-case"
 	}
-	base := runtime.NumGoroutine()
+	base := verifC15Quiesce()
 	sch.sync()
 	if !verifC15Wait(base) {
 		return "goroutines-did-not-finish"
@@ -338,6 +354,7 @@ func verifC15Fl(f []string) string {
 		}()
 		select {
 		case <-done:
+			runtime.Gosched()
 		case <-time.After(30 * time.Second):
 			return "did-not-return"
 		}
